@@ -1,4 +1,5 @@
 #!/bin/bash
+export VERIF_NO_EVIDENCE=1
 # seedtest.sh <prop> <mutant-dir> [check-props...]
 # 1. confirms the seeded change in its scratch worktree: applies, compiles, suite passes, demo fails with / passes without
 # 2. applies it to /repo, runs the given checks (default: <prop>), reverts /repo.
